@@ -265,7 +265,21 @@ def isolation_tests(ok):
     # 9. rows written inside a trigger are locked
     e, cc, res, seen = scenario(["INSERT INTO t (k, v) VALUES (8, 1)", "SELECT 1"], 1, ["UPDATE log SET what = 'z' WHERE id = 5"], base)
     ok(cc.outcome == "blocked", f"rows written by a trigger are locked ({cc.outcome})")
-    return 12
+    # 10. a table probed by primary key through a join: only the probed rows are locked (another row of it stays free) ...
+    j = base + ("INSERT INTO anc (g, a) VALUES (5, 1)", "INSERT INTO anc (g, a) VALUES (6, 2)", "INSERT INTO canc (a) VALUES (1)")
+    e, cc, res, seen = scenario(["UPDATE t INNER JOIN anc ON anc.a = t.k SET t.v = t.v + 1 WHERE anc.g = 5", "SELECT 1"], 1, ["UPDATE t SET v = 0 WHERE k = 2"], j)
+    ok(cc.outcome == "ran", f"a probed table is locked row by row ({cc.outcome})")
+    e, cc, res, seen = scenario(["UPDATE t INNER JOIN anc ON anc.a = t.k SET t.v = t.v + 1 WHERE anc.g = 5", "SELECT 1"], 1, ["UPDATE t SET v = 0 WHERE k = 1"], j)
+    ok(cc.outcome == "blocked", "the probed row itself is locked")
+    # ... and a probe that finds nothing keeps others from inserting the missing row (gap lock)
+    e, cc, res, seen = scenario(["SELECT 1 FROM anc INNER JOIN canc ON anc.a = canc.a WHERE anc.g = 6 FOR SHARE", "SELECT 1"], 1,
+                                ["INSERT INTO canc (a) VALUES (2)"], j)
+    ok(cc.outcome == "blocked", f"a probe that finds nothing locks the gap ({cc.outcome})")
+    # 11. FOR SHARE OF t: the other tables of the statement are consistent reads without locks
+    e, cc, res, seen = scenario(["SELECT 1 FROM anc INNER JOIN canc ON anc.a = canc.a WHERE anc.g = 6 FOR SHARE OF anc", "SELECT 1"], 1,
+                                ["INSERT INTO canc (a) VALUES (2)"], j)
+    ok(cc.outcome == "ran", f"FOR SHARE OF names the locked tables ({cc.outcome})")
+    return 16
 
 
 if __name__ == "__main__":
